@@ -554,6 +554,12 @@ def check_maskblind(rec, fn, scene, seed, use_err, kw, tag):
         dd = d.copy()
         dd[mask] = f
         res.append(call(fn, dd, mask.copy(), err, **kws))
+    if err is not None and n > 0:
+        # the error values of masked pixels are masked values too (a hot pixel has a huge error)
+        for ef in (np.full(n, 250.0), np.full(n, 1e-3), rl.uniform(0.1, 50.0, n)):
+            ee = np.array(err, dtype=float, copy=True)
+            ee[mask] = ef
+            res.append(call(fn, d.copy(), mask.copy(), ee, **kws))
     rec.case(('maskblind', tag), nontrivial=n > 0, contract='masked-values-ignored')
     ok = all(_same(res[0], r, TOL_SAME[fn]) for r in res[1:]) and not isinstance(res[0][0], str)
     rec.check(ok, f'masked-values-not-ignored/{fn}',
